@@ -205,6 +205,18 @@ func c06Case(r *obs.Run, i int) {
 			return src
 		}
 		d := src.New()
+		if op != "join" && rng.Intn(4) == 0 { // a distinct destination that starts as a shallow copy of the source (`d := *s`), so it holds the source's own storage when the call is made
+			switch s := src.(type) {
+			case *linear.Seq:
+				c := *s
+				d = &c
+			case *linear.QSeq:
+				c := *s
+				d = &c
+			}
+			r.Count("destinations_viewing_the_source", 1)
+			return d
+		}
 		if rng.Intn(2) == 0 { // a destination that already holds something
 			d.(seq.Appender).AppendLetters(alphabet.Letter('a'), alphabet.Letter('c'))
 			d.SetOffset(7)
